@@ -13,8 +13,9 @@ CANDS = ["", "a", "b", "ab", "abc", "abcd", "c", "linux", "linux2", "lin", "win3
 
 def run(tier="quick", seed=0, arg=None):
     fails, evals, distinct, samples = [], 0, 0, []
-    specs = [GenericSpecifier(op, lit) for op in OPS for lit in LITS]
-    for a, b in itertools.product(specs, specs):
+    keys = [(op, lit) for op in OPS for lit in LITS]
+    for ka, kb in itertools.product(keys, keys):
+        a, b = GenericSpecifier(*ka), GenericSpecifier(*kb)      # fresh objects for every pair: equal operands are not identical
         for tag, f, comb in (("and", lambda: a & b, lambda x, y: x and y), ("or", lambda: a | b, lambda x, y: x or y)):
             evals += 1
             try:
